@@ -22,7 +22,7 @@ func c08Int(c *Ctx) {
 	rounds := 1
 	primeLen := 256
 	if c.Thorough() {
-		rounds = 2
+		rounds = 1 // one round already takes ~15 min of harness time (Fischlin provers); wider mutation, all curves/compilers
 		primeLen = 512
 	}
 	for i := 0; i < rounds; i++ {
